@@ -61,12 +61,12 @@ def main():
             rc, out = sh("make -C tests %s check 2>&1 | grep -E '^# (TOTAL|PASS|FAIL|ERROR)'" % J, cwd=wt)
             conf["tests_with_patch"] = " ".join(out.split("\n")).strip()
             conf["tests_pass_with_patch"] = bool(re.search(r"# PASS:\s+69", out)) and bool(re.search(r"# FAIL:\s+0", out))
-            rc, out = sh("sh %s" % demo, timeout=1200)
+            rc, out = sh("sh %s" % demo, cwd=d, timeout=1200)
             conf["demo_rc_with_patch"] = rc
             conf["demo_tail_with_patch"] = out[-300:]
         sh("git checkout -- .", cwd=wt)
         ok, out = build(wt)
-        rc, out = sh("sh %s" % demo, timeout=1200)
+        rc, out = sh("sh %s" % demo, cwd=d, timeout=1200)
         conf["demo_rc_unchanged"] = rc
         conf["confirmed"] = bool(conf.get("patch_applies") and conf.get("builds_with_patch") and conf.get("tests_pass_with_patch")
                                  and conf.get("demo_rc_with_patch") not in (0, None) and rc == 0)
